@@ -123,7 +123,11 @@ def cases(draw):
     # one transfer whose segments arrive 40 s apart (less than the receiver's one-minute wait for the next segment,
     # the whole transfer takes minutes)
     gap_ms = draw(st.sampled_from([0, 0, 0, 40000])) if len(sends) == 1 else 0
-    return {'mtu': mtu, 'sends': sends, 'ops': ops, 'queries': queries, 'poll': poll, 'restart': restart, 'gap_ms': gap_ms}
+    # injected fault: one sendmsg() call of the senders fails (network unreachable); the bundle it belonged to is lost,
+    # every other bundle must still go out and arrive
+    send_fail = draw(st.sampled_from([None, None, None, 0, 1, 2, 5])) if not restart else None
+    return {'mtu': mtu, 'sends': sends, 'ops': ops, 'queries': queries, 'poll': poll, 'restart': restart, 'gap_ms': gap_ms,
+            'send_fail': send_fail}
 
 
 # --- execution ------------------------------------------------------------------------------
@@ -156,6 +160,7 @@ def execute(case, out):
     senders = {1: Agent('10.0.0.1', mtu=mtu, node_id='dtn://s1/'), 2: Agent('10.0.0.2', mtu=mtu, node_id='dtn://s2/'),
                3: Agent('10.0.0.1', mtu=mtu, node_id='dtn://s3/')}
     originals = []        # (peer, bid, data)
+    simudp.NET.fail_at = case.get('send_fail')
     for idx, send in enumerate(case['sends']):
         plen = int(send['plen'])
         data = make_bundle(plen, int(send['seed']) * 4 + idx)     # distinct content per send
@@ -187,6 +192,20 @@ def execute(case, out):
     net = simudp.NET
     # --- sender oracle -------------------------------------------------------------------
     multi_seg = False
+    # the bundle whose datagram hit the injected send fault is not judged (it is lost); the others are, in full
+    faulted = set()
+    for hit in net.failed:
+        kind = parse_segment(hit['data'])
+        for peer, bid, data in originals:
+            if hasattr(bid, 'exc') or senders[peer].name != hit['owner']:
+                continue
+            if (kind[0] == 'segment' and kind[1] == int(bid)) or (kind[0] == 'bundle' and kind[1] == data):
+                faulted.add((peer, str(bid)))
+    if net.failed:
+        out.label('send-fault-injected')
+    for peer, bid, data in list(originals):
+        if (peer, str(bid)) in faulted:
+            originals.remove((peer, bid, data))
     for peer, bid, data in originals:
         if tw.CallError and hasattr(bid, 'exc'):
             out.fail('send-call-error', 'send_bundle_data raised %r' % (bid,))
